@@ -204,3 +204,5 @@ def run(ctx):
     ctx.cov["rule"] = ("leg A: random COO arrays (rank 0-4, extents {0..7}, fills {0,2,-1}) x one shape operation, model vs implementation "
                        "on coords/data/shape/fill; leg C: every shape function on COO and GCXS(random compressed axes) vs NumPy; "
                        "non-trivial = array has at least one element; distinct by content hash")
+    import extra_ops  # operation tables closing the measured coverage gaps (tools/coverage_audit.py; coverage/API_COVERAGE.md)
+    extra_ops.run(ctx, PID)
